@@ -36,6 +36,9 @@ pub fn base_programs() -> Vec<(String, AProg)> {
     v.push(("ends at fence".into(), block(0xFDFC, vec![lst("F0", f(1)), st(f(2)), st(f(3)), lst("F3", Nuc::Br(7, lab("F0")))])));
     v.push(("blkw to fence".into(), block(0xFD00, vec![st(Nuc::Blkw(0xFF)), lst("LAST", f(9))])));
     v.push(("big stringz".into(), block(0x5000, vec![lst("S", Nuc::Stringz("The quick brown fox; \"jumps\" \\ over\tthe lazy dog\n".into())), lst("AFTER", Nuc::Lea(0, lab("S")))])));
+    v.push(("long stringz".into(), block(0x3000, vec![lst("BEFORE", Nuc::Lea(0, lab("S"))), lst("S", Nuc::Stringz("0123456789abcdef".repeat(20))), lst("AFTER", Nuc::Fill(FillOp::Lab("S".into()))), st(Nuc::Fill(FillOp::Lab("after".into())))])));
+    v.push(("many statements".into(), { let mut b = vec![lst("TOP", Nuc::Jsr(lab("BOTTOM")))]; for k in 0..300u16 { b.push(st(Nuc::Add((k % 8) as u8, ((k / 8) % 8) as u8, RoI::Imm((k % 31) as i16 - 15)))); } b.push(lst("BOTTOM", Nuc::Jsr(lab("TOP")))); b.push(st(Nuc::Fill(FillOp::Lab("bottom".into())))); block(0x7F00, b) }));
+    v.push(("blkw then labels".into(), block(0x3000, vec![lst("B0", Nuc::Blkw(0x100)), lst("B1", Nuc::Blkw(0x7FFF)), lst("B2", Nuc::Fill(FillOp::Lab("B1".into()))), lst("B3", Nuc::Halt)])));
     v.push(("traps".into(), block(0x3000, vec![st(Nuc::Getc), st(Nuc::Out), st(Nuc::Putc), st(Nuc::Puts), st(Nuc::In), st(Nuc::Putsp), st(Nuc::Trap(0x26)), st(Nuc::Rti), st(Nuc::Halt)])));
     v
 }
